@@ -244,14 +244,17 @@ theorem iterNext_first {e : Bytes} (he : Obj e) (rest : Bytes) :
   simp only [List.cons_append] at hd
   simp only [iterNext, List.cons_append, skipWS, isWS]
   simp only [skipComma, skipWS, isWS]
-  simp [hd]
+  simp [hd, skipWS, isWS]
 
 theorem iterNext_comma {e : Bytes} (he : Obj e) (rest : Bytes) :
     iterNext (44 :: (e ++ rest)) = .node e rest := by
+  obtain ⟨r, hr⟩ := he.head
   have hd := he.delim rest
-  simp only [iterNext, skipWS, isWS]
+  subst hr
+  simp only [List.cons_append] at hd
+  simp only [iterNext, List.cons_append, skipWS, isWS]
   simp only [skipComma, skipWS, isWS]
-  simp [hd]
+  simp [hd, skipWS, isWS]
 
 theorem iterNext_suffix : iterNext treeSuffix = .eof := by decide
 
@@ -905,5 +908,12 @@ example : buildTree [([], some exEnc)] = none := by decide
 example : treeSave [.node ⟨[97], some exEnc, 1⟩, .excluded, .node ⟨[97], some exEnc, 1⟩, .failed false true,
     .node ⟨[98], some exEnc, 2⟩] = .ok (treePrefix ++ exEnc ++ [44] ++ exEnc ++ treeSuffix) 2 := by decide
 example : treeSave [.node ⟨[97], some exEnc, 1⟩, .node ⟨[97], some exEnc, 7⟩] = .err "order" := by decide
+
+/-! ### Observation (outside the statement of C41, transcribed faithfully)
+`treeIterator.next` passes an `io.EOF` from `dec.Token()` on as a clean end of the tree.  A tree
+document that is cut off at a token boundary is therefore accepted as a complete (shorter) tree;
+reproduced on the real iterator (docs/C41.md). -/
+example : decodeRaw treePrefix = some ([], true) := by decide
+example : decodeRaw (treePrefix ++ exEnc ++ [44]) = some ([exEnc], true) := by decide
 
 end Restic.Props.C41
